@@ -123,6 +123,7 @@ struct C19 : Check {
 				std::string mv = m[r.below(34)];
 				if (mv == "G" && r.chance(1, 2)) s.keys = std::to_string(r.range(1, 80)) + "G";
 				else if (mv == "|") s.keys = std::to_string(r.range(1, 200)) + "|";
+				else if (mv == "0") s.keys = mv;	// a count before 0 would just be a longer count
 				else s.keys = c + mv;
 			} else if (k == 1) {
 				static const char *sc[] = {"\x05", "\x19", "\x04", "\x15", "\x06", "\x02", "z.", "z-", "z\n"};
@@ -152,6 +153,9 @@ struct C19 : Check {
 			if (s.op == "keys" && resizes && r.chance(1, 20)) {
 				Fault f; f.seam = "any"; f.nth = (int) r.below(60); f.effect = "sigwinch"; f.arg = r.range(3, 40); f.arg2 = r.range(10, 120); f.err = r.chance(1, 2);
 				s.faults.push_back(f);
+				// the signal makes the editor abandon what it was reading (^C ^L are pushed) and the rest of the
+				// step's keys are then read in whatever state that leaves; the user ends that state with ESC
+				s.keys += "\x1b\x1b";
 			}
 			if (s.op == "keys" && s.keys.empty()) continue;
 			p.steps.push_back(s);
@@ -169,7 +173,7 @@ struct C19 : Check {
 
 	void begin(RunCtx &) override { have_snap = false; snap_rows.clear(); disturbed = false; }
 
-	static std::string keys_of(const RunCtx &c, int i) { const Step &s = c.plan.steps[(size_t) i]; return s.op == "keys" || s.op == "check" ? vis(s.keys, 40) : s.op; }
+	static std::string keys_of(const RunCtx &c, int i) { if (i < 0 || i >= c.nsteps) return "<start>"; const Step &s = c.plan.steps[(size_t) i]; return s.op == "keys" || s.op == "check" ? vis(s.keys, 40) : s.op; }
 
 	void take_snapshot(RunCtx &, int after)
 	{
@@ -245,7 +249,7 @@ struct C19 : Check {
 		if (K.vt.rows != K.rows || K.vt.cols != K.cols) return;
 		// a SIGWINCH that lands inside a step makes the editor abandon what it was doing and repaint
 		// (^C ^L are pushed); whatever the rest of the step's keys then did is not a "complete command"
-		if (mid_resize) { have_snap = false; c.count("steps_with_resize_inside"); take_snapshot(c, after); return; }
+		if (mid_resize) c.count("steps_with_resize_inside");
 		if (s.op == "check" && have_snap && snap_after == after - 1) {
 			// (2) a full repaint must not change what is shown
 			c.compared();
@@ -256,9 +260,11 @@ struct C19 : Check {
 					c.violate("C19/repaint/row-differs", "before ^L (after step " + std::to_string(after - 1) + " " + keys_of(c, after - 1) + ") screen row " + std::to_string(r) + " showed \"" + vis(snap_rows[(size_t) r], 60) +
 						"\"; a full repaint draws \"" + vis(now, 60) + "\" (window " + std::to_string(K.rows) + "x" + std::to_string(K.cols) + ")");
 			}
-			if (K.vt.cr != snap_cr || K.vt.cc != snap_cc)
-				c.violate("C19/repaint/cursor-differs", "before ^L (after step " + std::to_string(after - 1) + " " + keys_of(c, after - 1) + ") the terminal cursor was at " + std::to_string(snap_cr) + "," + std::to_string(snap_cc) +
-					"; after a full repaint it is at " + std::to_string(K.vt.cr) + "," + std::to_string(K.vt.cc));
+			// the cursor: the same row; the column is judged by clause 3 on both sides (a character may
+			// span several cells, e.g. a tab, and either of its cells is "on the character")
+			if (K.vt.cr != snap_cr)
+				c.violate("C19/repaint/cursor-differs", "before ^L (after step " + std::to_string(after - 1) + " " + keys_of(c, after - 1) + ") the terminal cursor was on row " + std::to_string(snap_cr) +
+					"; after a full repaint it is on row " + std::to_string(K.vt.cr));
 		}
 		clause1_3(c, after);
 		take_snapshot(c, after);
